@@ -1,63 +1,68 @@
 (* C13 - Interactive parser: forks independent, accepts() exact, resume equals parse.
    Property theorems only: each is closed by [exact] of a lemma proved in Inter/IDriver_proofs.v about the
-   model Inter/Heap.v + Inter/IDriver.v (heap form of the LALR value stack over an abstract parse table),
-   whose copy defaults are regenerated from lark/parsers/lalr_interactive_parser.py (Gen/InterHoles.v). *)
-From Coq Require Import List Arith Bool.
+   model Inter/Heap.v + Inter/IDriver.v: heap form of the LALR value stack over an abstract parse table,
+   with the child lists, the Meta objects (PropagatePositions = Pos.MetaSpan.propagate written in place)
+   and the lexer threads as heap cells.  The copy defaults and the two repaired copy shapes (F25, F26)
+   are regenerated / pinned from the source (Gen/InterHoles.v -> ICheck.impl_now). *)
+From Coq Require Import List Arith Bool ZArith.
+From LV Require Pos.MetaSpan.
 From LV Require Import Inter.Heap Inter.IDriver Inter.Heap_proofs Inter.IDriver_proofs Inter.ICheck Gen.InterHoles.
 Import ListNotations.
 
 (* Feeding the tokens one at a time through InteractiveParser.feed_token and then feed_eof() is
    _Parser.parse_from_state on the same tokens (same heap, stacks and outcome), from any state. *)
-Theorem C13_feed_eq_parse k T cb toks H ss vs :
+Theorem C13_feed_eq_parse k T E toks H ss vs :
   Forall (fun t => fst t <> END) toks ->
-  hfeed_all k T cb H ss vs toks = hparse_from k T cb H ss vs toks.
-Proof. exact (feed_eq_parse k T cb toks H ss vs). Qed.
+  hfeed_all k T E H ss vs toks = hparse_from k T E H ss vs toks.
+Proof. exact (feed_eq_parse k T E toks H ss vs). Qed.
 Print Assumptions C13_feed_eq_parse.
 
-(* After any sequence of feed_token / copy / as_immutable / as_mutable / immutable feed_token / accepts /
-   resume_parse on any of the parsers created so far, in which explicit copies are deep and implicit ones
-   use the regenerated default:
+(* After any sequence of feed_token / one step of iter_parse / copy / as_immutable / as_mutable / immutable
+   feed_token / accepts / resume_parse on any of the parsers created so far, in which explicit copies are
+   deep and implicit ones use the code as the translator found it (impl_now):
    (1) every observation (outcomes, state stacks, accepts sets) is the one made on immutable trees;
-   (2) no two parsers reach a common child list (wowns = pairwise disjoint footprints, no sharing);
-   (3) the stacks of parser j, read off the heap, are those of a fresh parser that went through j's own
-       history (lineages os), whatever was done to the other forks in between. *)
-Theorem C13_fork_separation k T cb os :
+   (2) no two parsers reach a common child list, Meta object or lexer thread (wowns = pairwise disjoint
+       footprints, no sharing);
+   (3) the stacks of parser j read off the heap - trees with all their metas - and the position of its
+       lexer thread (which is also the one resume_parse() reads) are those of a fresh parser that went
+       through j's own history (lineages os), whatever was done to the other forks in between. *)
+Theorem C13_fork_separation k T E input os :
   Forall all_deep os ->
-  let w := fst (wrun InterHoles.interactive_copy_default k T cb (world0 T) os) in
-  snd (wrun InterHoles.interactive_copy_default k T cb (world0 T) os) = snd (prun k T cb (pworld0 T) os) /\
+  let w := fst (wrun impl_now k T E input (world0 T) os) in
+  snd (wrun impl_now k T E input (world0 T) os) = snd (prun k T E input (pworld0 T) os) /\
   exists pps F,
     wowns (w_heap w) pps (w_ps w) F /\
     forall j p, nth_error (w_ps w) j = Some p ->
       exists h, nth_error (lineages os) j = Some h /\
-                p_imm p = fst h /\
-                (p_ss p, read_stack (w_heap w) p) = preplay k T cb (snd h).
-Proof. exact (fork_separation k T cb os). Qed.
+                p_imm p = fst h /\ p_sl p = p_lt p /\
+                (p_ss p, read_stack (w_heap w) p, lget (w_heap w) (p_lt p)) = preplay k T E input (snd h).
+Proof. exact (fork_separation k T E input os). Qed.
 Print Assumptions C13_fork_separation.
 
 (* ... and a history "tokens, then $END" whose parse succeeds ends with the stacks (the top of the value
-   stack is the result) of Lark.parse on those tokens. *)
-Theorem C13_fork_result_eq_parse k T cb toks ss ts :
+   stack is the result, metas included) of Lark.parse on those tokens. *)
+Theorem C13_fork_result_eq_parse k T E input toks ss ts :
   Forall (fun t => fst t <> END) toks ->
-  pparse k T cb toks = (ss, ts, KResult) ->
-  preplay k T cb (map (fun t => EFeed (fst t) (snd t)) toks ++ [EFeed END 0]) = (ss, ts).
-Proof. exact (fork_result_eq_parse k T cb toks ss ts). Qed.
+  pparse k T E toks = (ss, ts, KResult) ->
+  preplay k T E input (map (fun t => EFeed (fst t) (snd t)) toks ++ [EFeed END 0]) = (ss, ts, 0).
+Proof. exact (fork_result_eq_parse k T E input toks ss ts). Qed.
 Print Assumptions C13_fork_result_eq_parse.
 
-(* A feed with callbacks = {} writes no existing list object: the heap afterwards is the old heap plus
-   new cells. *)
+(* A feed with callbacks = {} writes no existing list, Meta or lexer object: the heap afterwards is the
+   old heap plus new cells. *)
 Theorem C13_trial_feed_pure k T H ss vs ty id e :
-  exists ext, rH (hfeed k T (fun _ => cb_none) H ss vs ty id e) = H ++ ext.
+  exists ext, rH (hfeed k T env_none H ss vs ty id e) = H ++ ext.
 Proof. exact (trial_feed_pure k T H ss vs ty id e). Qed.
 Print Assumptions C13_trial_feed_pure.
 
 (* t is in accepts() exactly when feeding a token of type t to a deep copy of the parser, with the real
    callbacks, does not raise. *)
-Theorem C13_accepts_exact k T cb H p ts f t id :
+Theorem C13_accepts_exact k T E H p ts f t id :
   table_wf T -> owns H ts (p_vs p) f ->
-  let c := copy_parser true H p in
-  In t (snd (accepts_loop InterHoles.interactive_copy_default k T H p (choices T p))) <->
-  kind_ok (rkd (hifeed k T cb (fst c) (p_ss (snd c)) (p_vs (snd c)) t id)) = true.
-Proof. exact (accepts_exact k T cb H p ts f t id). Qed.
+  let c := copy_parser impl_now true H p in
+  In t (snd (accepts_loop impl_now k T H p (choices T p))) <->
+  kind_ok (rkd (hifeed k T E (fst c) (p_ss (snd c)) (p_vs (snd c)) t id)) = true.
+Proof. exact (accepts_exact k T E H p ts f t id). Qed.
 Print Assumptions C13_accepts_exact.
 
 (* the hypothesis on the table holds for every table given as data (the form the harness exports) *)
@@ -68,30 +73,45 @@ Print Assumptions C13_accepts_exact_table.
 (* parse() stops at the unexpected token with the state st_e it reached (reductions done under that
    look-ahead included); resume_parse() from st_e on the rest is the token-by-token feed of the rest
    followed by $END from st_e. *)
-Theorem C13_resume_eq_parse_rest k T cb pre bad rest H ss vs H1 ss1 vs1 He sse vse :
+Theorem C13_resume_eq_parse_rest k T E pre bad rest H ss vs H1 ss1 vs1 He sse vse :
   Forall (fun t => fst t <> END) rest ->
-  hfeeds k T cb H ss vs pre = (H1, ss1, vs1, KShift) ->
-  hfeed k T cb H1 ss1 vs1 (fst bad) (snd bad) false = (He, sse, vse, KError) ->
-  hparse_from k T cb H ss vs (pre ++ bad :: rest) = (He, sse, vse, KError) /\
-  hparse_from k T cb He sse vse rest = hfeed_all k T cb He sse vse rest.
-Proof. exact (resume_eq_parse_rest k T cb pre bad rest H ss vs H1 ss1 vs1 He sse vse). Qed.
+  hfeeds k T E H ss vs pre = (H1, ss1, vs1, KShift) ->
+  hfeed k T E H1 ss1 vs1 (fst bad) (snd bad) false = (He, sse, vse, KError) ->
+  hparse_from k T E H ss vs (pre ++ bad :: rest) = (He, sse, vse, KError) /\
+  hparse_from k T E He sse vse rest = hfeed_all k T E He sse vse rest.
+Proof. exact (resume_eq_parse_rest k T E pre bad rest H ss vs H1 ss1 vs1 He sse vse). Qed.
 Print Assumptions C13_resume_eq_parse_rest.
 
-(* The defaults read from the source are deep, so every operation list that never passes
-   deepcopy_values=False explicitly satisfies the hypothesis of C13_fork_separation. *)
+(* resume_parse() on any fork, at any point of any fork tree: it reads the fork's own lexer, from the
+   fork's own position, and is parse_from_state of what is left there, from the stacks of the fork's
+   own history. *)
+Theorem C13_resume_on_fork k T E input os j p h :
+  Forall all_deep os ->
+  let w := fst (wrun impl_now k T E input (world0 T) os) in
+  nth_error (w_ps w) j = Some p -> nth_error (lineages os) j = Some h ->
+  let '(ss, ts, pos) := preplay k T E input (snd h) in
+  snd (wstep impl_now k T E input w (OResume j)) =
+  ObsFeed j (qkd (pparse_from k T E ss ts (skipn pos input))) (qss (pparse_from k T E ss ts (skipn pos input))).
+Proof. exact (fork_resume k T E input os j p h). Qed.
+Print Assumptions C13_resume_on_fork.
+
+(* The code as read from the source: copies deep by default, Tree.__deepcopy__ copies the Meta, copy()
+   rebinds parser_state.lexer; so every operation list that never passes deepcopy_values=False
+   explicitly satisfies the hypothesis of C13_fork_separation. *)
 Definition uses_default (o : op) : Prop :=
   match o with OCopy _ d => d = InterHoles.interactive_copy_default \/ d = true | _ => True end.
 Theorem C13_default_copies_are_deep :
-  InterHoles.interactive_copy_default = true /\ InterHoles.parser_state_copy_default = true /\
+  impl_now = impl_fixed /\ InterHoles.parser_state_copy_default = true /\
   forall os, Forall uses_default os -> Forall all_deep os.
 Proof.
   split; [reflexivity|]. split; [reflexivity|].
   intros os h. induction h as [|o os ho _ IH]; constructor; auto.
-  destruct o as [| i [|] | | | |]; simpl in *; auto. destruct ho; discriminate.
+  destruct o as [| | i [|] | | | |]; simpl in *; auto. destruct ho; discriminate.
 Qed.
 Print Assumptions C13_default_copies_are_deep.
 
-(* Why the default must be deep.  lark's table and callbacks for
+(* ---------------------------------------------------------------------------------------------------
+   Why the default must be deep.  lark's table and callbacks for
      start: _l      _l: _l A | A
    (rule 1 is the in-place ChildFilterLALR path).  Feed a1 a2, fork with deepcopy_values=False, feed a3 to
    the original and a4 to the fork, then $END to both. *)
@@ -101,46 +121,113 @@ Definition wit_table : table :=
            [(0, []); (1, []); (2, [(0, 3); (1, 0)]); (3, []); (4, [])]
            [(0, 1); (1, 2); (1, 1)] 2 3.
 Definition wit_rules : list (nat * nat) := [(0, 1); (1, 2); (1, 1)].
-Definition wit_cb : nat -> cbshape :=
-  mk_cb wit_rules [mk_cbdata 1 false (Some ([(0, true, 0)], 0));
-                   mk_cbdata 2 false (Some ([(0, true, 0); (1, false, 0)], 0));
-                   mk_cbdata 2 false None].
+Definition wit_env : cbenv :=
+  mk_env wit_rules [mk_cbdata 1 false (Some ([(0, true, 0)], 0));
+                    mk_cbdata 2 false (Some ([(0, true, 0); (1, false, 0)], 0));
+                    mk_cbdata 2 false None] false [].
 Definition wit_ops (deep : bool) : list op :=
   [OFeed 0 1 1; OFeed 0 1 2; OCopy 0 deep; OFeed 0 1 3; OFeed 1 1 4; OFeed 0 0 0; OFeed 1 0 0].
-Definition wit_result (deep : bool) (j : nat) : option ptree :=
-  let w := fst (wrun true FUEL wit_table wit_cb (world0 wit_table) (wit_ops deep)) in
-  match nth_error (w_ps w) j with
-  | Some p => Some (last (read_stack (w_heap w) p) PNone)
-  | None => None
-  end.
-Definition wit_parse (toks : list (nat * nat)) : ptree :=
-  let '(_, ts, _) := pparse FUEL wit_table wit_cb toks in last ts PNone.
+Definition dummy_parser : parser := {| p_imm := false; p_ss := []; p_vs := []; p_lt := 0; p_sl := 0 |}.
+(* what parser j looks like at the end, and what its own history says it should look like *)
+Definition seen (I : impl) T E input os (j : nat) : list nat * list ptree * nat :=
+  let w := fst (wrun I FUEL T E input (world0 T) os) in
+  let p := nth j (w_ps w) dummy_parser in
+  (p_ss p, read_stack (w_heap w) p, lget (w_heap w) (p_lt p)).
+Definition own_history T E input os (j : nat) : list nat * list ptree * nat :=
+  preplay FUEL T E input (snd (nth j (lineages os) (false, []))).
+Definition result_of (st : list nat * list ptree * nat) : ptree := last (snd (fst st)) PNone.
 
 Theorem C13_shallow_fork_aliasing_refuted :
-  exists T cb os j, ~ Forall all_deep os /\
-    let w := fst (wrun true FUEL T cb (world0 T) os) in
-    exists p h, nth_error (w_ps w) j = Some p /\ nth_error (lineages os) j = Some h /\
-                (p_ss p, read_stack (w_heap w) p) <> preplay FUEL T cb (snd h).
+  exists T E input os j, ~ Forall all_deep os /\ j < length (lineages os) /\
+    seen impl_fixed T E input os j <> own_history T E input os j.
 Proof.
-  exists wit_table, wit_cb, (wit_ops false), 1. split.
+  exists wit_table, wit_env, [], (wit_ops false), 1. split; [|split].
   - intros h. inversion h as [|? ? _ h1]; subst. inversion h1 as [|? ? _ h2]; subst.
     inversion h2 as [|? ? h3 _]; subst. exact h3.
-  - cbv zeta.
-    exists (nth 1 (w_ps (fst (wrun true FUEL wit_table wit_cb (world0 wit_table) (wit_ops false))))
-                {| p_imm := false; p_ss := []; p_vs := [] |}),
-           (nth 1 (lineages (wit_ops false)) (false, [])).
-    split; [vm_compute; reflexivity|]. split; [vm_compute; reflexivity|]. vm_compute. discriminate.
+  - vm_compute. auto.
+  - vm_compute. discriminate.
 Qed.
 Print Assumptions C13_shallow_fork_aliasing_refuted.
 
-(* the same history with the default (deep) copy: each fork ends with the parse of its own tokens; with
-   the shallow copy both forks end with a1 a2 a2 a3 a4 (what lark produces too: replayed by the harness) *)
+(* ---------------------------------------------------------------------------------------------------
+   F25 (repaired): Tree.__deepcopy__ used to pass meta=self._meta.  lark's table and callbacks for
+     start: x     ?x: e _S | e _S _T     e:          (propagate_positions=True)
+   on the text ";1   !2": feed ";1", fork twice (deep copies), $END to the first fork, "!2" then $END to
+   the second.  With the old code the `e` tree of the second fork carries the end position of ";1" (the
+   first fork wrote the shared Meta; `if not hasattr(res_meta, 'end_line')` then skips the write). *)
+Definition f25_table : table :=
+  mk_table [(0, [(1, Shift 2)]); (1, []); (2, [(2, Shift 5); (0, Reduce 1)]); (3, [(0, Reduce 0)]);
+            (4, [(1, Reduce 3)]); (5, [(0, Reduce 2)])]
+           [(0, []); (1, []); (2, []); (3, []); (4, [(2, 0); (0, 1); (1, 3)]); (5, [])]
+           [(0, 1); (1, 2); (1, 3); (2, 0)] 4 1.
+Definition f25_env : cbenv :=
+  mk_env [(0, 1); (1, 2); (1, 3); (2, 0)]
+         [mk_cbdata 1 false None; mk_cbdata 2 true (Some ([(0, false, 0)], 0));
+          mk_cbdata 2 true (Some ([(0, false, 0)], 0)); mk_cbdata 3 false None]
+         true [mk_tp 1 (mk_trip 0 1 1) (mk_trip 2 1 3); mk_tp 2 (mk_trip 5 1 6) (mk_trip 7 1 8)].
+Definition f25_ops : list op :=
+  [OFeed 0 1 1; OCopy 0 true; OCopy 0 true; OFeed 1 0 0; OFeed 2 2 2; OFeed 2 0 0].
+Definition impl_shared_meta : impl := {| im_deep := true; im_meta := false; im_lex := true |}.
+
+Theorem C13_shared_meta_refuted :
+  exists T E input os j, Forall all_deep os /\ j < length (lineages os) /\
+    seen impl_shared_meta T E input os j <> own_history T E input os j /\
+    seen impl_fixed T E input os j = own_history T E input os j.
+Proof.
+  exists f25_table, f25_env, [], f25_ops, 2. split; [|split; [|split]].
+  - repeat constructor.
+  - vm_compute. auto.
+  - vm_compute. discriminate.
+  - vm_compute. reflexivity.
+Qed.
+Print Assumptions C13_shared_meta_refuted.
+
+(* ---------------------------------------------------------------------------------------------------
+   F26 (repaired): InteractiveParser.copy used to leave parser_state.lexer pointing at the original's
+   thread.  lark's table for   start: A B C   on the text "a1 b2 c3": fork, fork.resume_parse() (correct
+   result), then original.resume_parse(): with the old code the original's thread is already at the end
+   and it raises UnexpectedToken($END). *)
+Definition f26_table : table :=
+  mk_table [(0, [(1, Shift 2)]); (1, [(3, Shift 3)]); (2, [(2, Shift 1)]); (3, [(0, Reduce 0)]); (4, [])]
+           [(0, [(0, 4)]); (1, []); (2, []); (3, []); (4, [])] [(0, 3)] 0 4.
+Definition f26_env : cbenv := mk_env [(0, 3)] [mk_cbdata 1 false None] false [].
+Definition f26_input : list (nat * nat) := [(1, 1); (2, 2); (3, 3)].
+Definition f26_ops : list op := [OCopy 0 true; OResume 1; OResume 0].
+Definition impl_shared_lexer : impl := {| im_deep := true; im_meta := true; im_lex := false |}.
+
+Theorem C13_resume_shared_lexer_refuted :
+  exists T E input os, Forall all_deep os /\
+    snd (wrun impl_shared_lexer FUEL T E input (world0 T) os) <> snd (prun FUEL T E input (pworld0 T) os) /\
+    snd (wrun impl_fixed FUEL T E input (world0 T) os) = snd (prun FUEL T E input (pworld0 T) os).
+Proof.
+  exists f26_table, f26_env, f26_input, f26_ops. split; [|split].
+  - repeat constructor.
+  - vm_compute. discriminate.
+  - vm_compute. reflexivity.
+Qed.
+Print Assumptions C13_resume_shared_lexer_refuted.
+
+(* non-vacuity and the concrete values: with the deep default each fork ends with the parse of its own
+   tokens; with the shallow copy both forks end with a1 a2 a2 a3 a4 (what lark produces too: the harness'
+   shallow-model stream); the F25 witness under the old code has end (2,1,3) on the `e` node of fork 2
+   where its own history (and the repaired code) has (7,1,8); the F26 witness ends in KError / KResult. *)
 Example C13_example_deep :
-  wit_result true 0 = Some (wit_parse [(1, 1); (1, 2); (1, 3)]) /\
-  wit_result true 1 = Some (wit_parse [(1, 1); (1, 2); (1, 4)]) /\
-  wit_parse [(1, 1); (1, 2); (1, 4)] = PNode 1 [PTok 1 1; PTok 1 2; PTok 1 4] /\
-  wit_result false 1 = Some (PNode 1 [PTok 1 1; PTok 1 2; PTok 1 2; PTok 1 3; PTok 1 4]) /\
-  wit_result false 0 = Some (PNode 1 [PTok 1 1; PTok 1 2; PTok 1 2; PTok 1 3; PTok 1 4]) /\
+  seen impl_fixed wit_table wit_env [] (wit_ops true) 0 = own_history wit_table wit_env [] (wit_ops true) 0 /\
+  seen impl_fixed wit_table wit_env [] (wit_ops true) 1 = own_history wit_table wit_env [] (wit_ops true) 1 /\
+  result_of (own_history wit_table wit_env [] (wit_ops true) 1)
+    = PNode 1 empty_meta [PTok 1 1; PTok 1 2; PTok 1 4] /\
+  result_of (seen impl_fixed wit_table wit_env [] (wit_ops false) 1)
+    = PNode 1 empty_meta [PTok 1 1; PTok 1 2; PTok 1 2; PTok 1 3; PTok 1 4] /\
+  result_of (seen impl_shared_meta f25_table f25_env [] f25_ops 2)
+    = PNode 1 (mk_meta (Some (mk_trip 0 1 1)) (Some (mk_trip 7 1 8)) (Some (mk_trip 0 1 1)) (Some (mk_trip 7 1 8)))
+        [PNode 3 (mk_meta (Some (mk_trip 0 1 1)) (Some (mk_trip 2 1 3)) (Some (mk_trip 0 1 1)) (Some (mk_trip 7 1 8))) []] /\
+  result_of (own_history f25_table f25_env [] f25_ops 2)
+    = PNode 1 (mk_meta (Some (mk_trip 0 1 1)) (Some (mk_trip 7 1 8)) (Some (mk_trip 0 1 1)) (Some (mk_trip 7 1 8)))
+        [PNode 3 (mk_meta (Some (mk_trip 0 1 1)) (Some (mk_trip 7 1 8)) (Some (mk_trip 0 1 1)) (Some (mk_trip 7 1 8))) []] /\
+  snd (wrun impl_shared_lexer FUEL f26_table f26_env f26_input (world0 f26_table) f26_ops)
+    = [ObsNew 1; ObsFeed 1 KResult [4; 0]; ObsFeed 0 KError [0]] /\
+  snd (wrun impl_fixed FUEL f26_table f26_env f26_input (world0 f26_table) f26_ops)
+    = [ObsNew 1; ObsFeed 1 KResult [4; 0]; ObsFeed 0 KResult [4; 0]] /\
   Forall all_deep (wit_ops true) /\ table_wf wit_table.
 Proof.
   repeat split; try (vm_compute; reflexivity).
